@@ -480,6 +480,7 @@ type Contract struct {
 	Options    map[string]string
 	File       string
 	Lemmas     []*Clause // proved standalone in function context-less
+	Swept      bool
 }
 
 type ContractSet struct {
@@ -488,6 +489,17 @@ type ContractSet struct {
 	Axioms  []*Axiom
 	Lemmas  []*Lemma
 	Order   []string
+	TypeInvs map[string]*Clause // pkgpath::TypeName -> invariant over `self`
+	Sweeps  []*Sweep
+}
+
+// Sweep: a safety-only contract template instantiated for every function declared in a source file.
+type Sweep struct {
+	Pkg      string
+	Prop     string
+	File     string
+	Exclude  map[string]bool
+	Template *Contract
 }
 
 type Lemma struct {
@@ -524,7 +536,7 @@ func parseLabel(s string) (props []string, label string, rest string) {
 
 var clauseKeywords = map[string]bool{"func": true, "external": true, "requires": true, "ensures": true, "loop": true,
 	"modifies": true, "pure": true, "mode": true, "safety": true, "assert": true, "panics": true, "specfn": true,
-	"axiom": true, "lemma": true, "inline": true, "option": true, "unroll": true}
+	"axiom": true, "lemma": true, "inline": true, "option": true, "unroll": true, "typeinv": true, "sweep": true}
 
 // loadContracts reads every zz_verif_contracts*.go under dir (non recursive) and
 // additional spec files.
@@ -678,6 +690,34 @@ func loadContractFile(cs *ContractSet, path, pkgPath string) error {
 				return fail(err)
 			}
 			cs.Axioms = append(cs.Axioms, &Axiom{Name: label, Expr: e, Text: r})
+		case "typeinv":
+			// typeinv TypeName E
+			if len(fs) < 3 {
+				return fail(fmt.Errorf("typeinv needs a type and an expression"))
+			}
+			r := strings.TrimSpace(rest[len(fs[1]):])
+			e, err := parseSpec(r)
+			if err != nil {
+				return fail(err)
+			}
+			cs.TypeInvs[pkgPath+"::"+fs[1]] = &Clause{Kind: "typeinv", Expr: e, Text: r, Line: ln}
+		case "sweep":
+			// sweep C15 message.go [exclude=a,b]   (following clauses fill the template)
+			if len(fs) < 3 {
+				return fail(fmt.Errorf("sweep needs a property and a file"))
+			}
+			sw := &Sweep{Pkg: pkgPath, Prop: fs[1], File: fs[2], Exclude: map[string]bool{}}
+			for _, f := range fs[3:] {
+				if strings.HasPrefix(f, "exclude=") {
+					for _, x := range strings.Split(strings.TrimPrefix(f, "exclude="), ",") {
+						sw.Exclude[x] = true
+					}
+				}
+			}
+			cur = &Contract{Pkg: pkgPath, Func: "sweep:" + fs[2], Invariants: map[int][]*Clause{}, LoopMods: map[int][]string{},
+				Safety: map[string][]string{fs[1]: {"*"}}, Props: map[string]bool{fs[1]: true}, Options: map[string]string{}, File: path, ModAll: true, Inline: true}
+			sw.Template = cur
+			cs.Sweeps = append(cs.Sweeps, sw)
 		case "lemma":
 			props, label, r := parseLabel(rest)
 			lm := &Lemma{Name: label, Props: props, Pkg: pkgPath, Text: r}
@@ -743,5 +783,5 @@ func parseSpecFn(s string) (*SpecFn, error) {
 }
 
 func newContractSet() *ContractSet {
-	return &ContractSet{Funcs: map[string]*Contract{}, SpecFns: map[string]*SpecFn{}}
+	return &ContractSet{Funcs: map[string]*Contract{}, SpecFns: map[string]*SpecFn{}, TypeInvs: map[string]*Clause{}}
 }
